@@ -29,9 +29,8 @@ Print Assumptions C01vm_compile_correct.
 
 (* The per-construct statement behind it, for every query in every context (any code position, any
    stack below the input, any pending forks, any variable store satisfying the environment): *)
-Theorem C01vm_segment_correct : forall nt code rpc q, Impl nt code rpc q.
+Corollary C01vm_segment_correct : forall nt code rpc q, Impl nt code rpc q.
 Proof. exact impl_all. Qed.
-Print Assumptions C01vm_segment_correct.
 
 (* STATED, NOT PROVED HERE (also C04's peephole_sound): the final pass optimizeCodeOps (Compile.peephole:
    push|dup|load ; pop => nop ; nop,  push|dup|load ; const k => nop ; push k  unless the second
@@ -55,7 +54,7 @@ Example C01vm_nonvacuous :
                      (QTry (QPipe (QVar 0%N) (QCall0 F0Error)) (Some (QComma QId (QConst (VNum 1)))))))
                   (QCall0 F0Error) in
   let v := VArr [VNum 3; VNum 4] in
-  (exists c, compile_raw q = Some c /\ length c = 29 /\
-     run cnat c 200 (init v) = ([VArr [VNum 3; VNum 1; VNum 4; VNum 1]], Error (VE (EV v)))) /\
+  option_map (fun c => run cnat c 300 (init v)) (compile_raw q)
+    = Some ([VArr [VNum 3; VNum 1; VNum 4; VNum 1]], Error (VE (EV v))) /\
   den cnat q [] v = ([VArr [VNum 3; VNum 1; VNum 4; VNum 1]], Some (XErr (EVal v))).
-Proof. vm_compute. split; [eexists; split; [reflexivity|split; reflexivity]|reflexivity]. Qed.
+Proof. vm_compute. split; reflexivity. Qed.
